@@ -2,12 +2,14 @@
 from . import rules_tables as T
 from . import rules_numeric as N
 from . import rules_cg as G
+from . import rules_lexer as L
 
 RULES = {
     "T1": T.rule_T1,
     "T2": T.rule_T2,
     "T3": T.rule_T3,
     "T6": T.rule_T6,
+    "A3": L.rule_A3,
     "G1c": G.rule_G1c,
     "G1r": G.rule_G1r,
     "G2c": G.rule_G2c,
@@ -46,6 +48,13 @@ PROPS = {
         "with the reason it cannot fire, and every recursive cycle is allow-listed with its depth bound or reported. Value "
         "reachability of an allow-listed site is by review, stated per site in allow/panic_sites.json.",
     },
+    "C13": {
+        "rules": ["A3", "T2"],
+        "claim": "Decides two clauses of C13: (A3) a character that cannot start or continue a token makes lex fail - the lexer's error "
+        "slot, once set, is never assigned a possibly-Ok value and no further character is consumed while it is set (path-sensitive "
+        "typestate over the MIR of every Lexer method); (T2, first hop) the operator table is the language's 60 spellings. "
+        "Losslessness, positions and longest match depend on the character sequence and are not decided.",
+    },
     "C09": {
         "rules": ["N1", "N2", "N3"],
         "claim": "Decides the no-wrap/no-trap/finiteness clauses of C09 on the code of impl GarnishNumber for SimpleNumber and its helpers: "
@@ -66,6 +75,7 @@ TECHNIQUE = {
     "C02": "priority-map extraction from HIR compared as an ordered partition against the operator table; associativity classes",
     "C03": "resolved whole-workspace call graph (trait dispatch into both data impls) + MIR panic-site inventory (asserts, Index impls, unwrap/panic macros, std panickers) against a reviewed per-function allow-list; SCC check for recursion",
     "C07": "same call-graph reachability + MIR panic-site inventory over the runtime entry set; SCC check with a depth-bound allow-list",
+    "C13": "path-partitioned abstract interpretation of the Lexer methods' MIR with a typestate on the error slot (assume-guarantee between methods); operator table extraction",
     "C09": "MIR scan of the number implementation: raw integer BinaryOp/overflow asserts, unchecked std integer calls, overflow-flag dataflow to a branch, FloatToInt casts, dominator check of finiteness tests over Float constructions",
     "C12": "constant/predicate wiring check on the four comparison functions; comparable type-pair arm table",
 }
